@@ -139,6 +139,19 @@ class LEval(CEval):
             if bn in ("tensordot", "dot", "arange", "delete", "asarray", "array", "concatenate", "swapaxes", "transpose", "ndim", "argsort", "max", "min", "range", "type", "len", "list", "tuple"):
                 args = [self.of(a) for a in list(pre) + list(t.args)]
                 kw = {k: self.of(v) for k, v in t.kw.items()}
+                # keyword arguments are bound to their positions in NumPy's own signature (swapaxes(a, axis1=i,
+                # axis2=j) is swapaxes(a, i, j)); gaps are filled with NumPy's defaults
+                sig_ = self.world.env.signature(ref.qual) if is_numpy_callable(ref) else None
+                if sig_ and kw:
+                    for i_, p_ in enumerate(sig_["pos"]):
+                        if i_ < len(args):
+                            continue
+                        if p_ in kw:
+                            args.append(kw[p_])
+                        elif p_ in sig_["defaults"] and any(q_ in kw for q_ in sig_["pos"][i_ + 1 :]):
+                            args.append(sig_["defaults"][p_])
+                        else:
+                            break
                 if bn == "tensordot":
                     return l_tensordot(args[0], args[1], kw.get("axes", args[2] if len(args) > 2 else 2))
                 if bn == "dot":
